@@ -175,9 +175,11 @@ def clamp_check(ctx, fn, size_texts, clause, rule="SIB-3"):
     for f, c in calls_in(fn, False):
         if not (isinstance(c.func, ast.Name) and c.func.id == "min" and repo.dotted(f, c.func) == "builtins.min" and len(c.args) == 2):
             continue
+        from ..forms import expand as _expand_sz
         rtexts = [_rt(fn, a, c) for a in c.args]
         ntexts = [norm(a) for a in c.args]
-        size_i = next((i_ for i_ in (0, 1) if rtexts[i_] in size_texts or ntexts[i_] in size_texts), None)
+        xtexts = [norm(_expand_sz(fn, a, c)) for a in c.args]       # size = len(self); n = min(size, n)
+        size_i = next((i_ for i_ in (0, 1) if rtexts[i_] in size_texts or ntexts[i_] in size_texts or xtexts[i_] in size_texts), None)
         if size_i is None or not isinstance(c.args[1 - size_i], ast.Name):
             continue
         req = c.args[1 - size_i].id
